@@ -4,7 +4,9 @@ implementation did per rand set (formulas, answers, soft decisions, swizzle cand
 
 All observation is in-process wrapping from here; nothing in /repo is changed."""
 import enum
+import os
 import random
+import time
 import sys
 
 from common import setup_repo_path, quiet
@@ -73,7 +75,13 @@ class RecBoolector:
             self.b.Assert(U(x))
 
     def Sat(self):
+        # a single SAT call may run for hours on an unlucky wide product; it is given a budget, and a call that
+        # exhausts it makes the harness abandon the scenario (counted in the evidence, judged in no way)
+        deadline = time.time() + SAT_BUDGET_S
+        self.b.Set_term(lambda _a: time.time() > deadline, None)
         r = self.b.Sat()
+        if r != self.b.SAT and r != self.b.UNSAT:
+            ABANDONED[0] = True
         if r == self.b.SAT:
             EV.append(("sat", "SAT", {v.tree[1]: int(v.n.assignment, 2) for v in self.vars}))
         else:
@@ -104,6 +112,21 @@ class RecBoolector:
 
 
 _installed = False
+
+
+class SolverBudget(Exception):
+    """a SAT call exhausted its time budget: the scenario is abandoned"""
+    pass
+
+
+SAT_BUDGET_S = float(os.environ.get("PYVSC_VERIF_SAT_BUDGET", "20"))
+ABANDONED = [False]
+
+
+def check_budget():
+    if ABANDONED[0]:
+        ABANDONED[0] = False
+        raise SolverBudget()
 
 
 ON_SOLVE = []     # callbacks run when Randomizer.randomize is entered (the model is fully elaborated then)
@@ -363,6 +386,7 @@ def run_call(o, scn, names, call):
         import traceback
         outcome = "exception"
         exc = "%s: %s | %s" % (type(e).__name__, str(e)[:200], traceback.format_exc().strip().split("\n")[-3].strip()[:160])
+    check_budget()
     return outcome, exc, list(EV)
 
 
